@@ -189,7 +189,10 @@ func (conv *converter) addCustomDecl(dst *ir.File, decl ast.Decl) {
 	begin := conv.fset.Position(decl.Pos())
 	end := conv.fset.Position(decl.End())
 	src := conv.src[begin.Offset:end.Offset]
-	dst.CustomDecls = append(dst.CustomDecls, string(src))
+	// The declarations are compiled from a synthetic file: a line directive
+	// makes the positions (and so the compile errors) refer to this file's lines.
+	lineDirective := fmt.Sprintf("//line :%d:%d\n", begin.Line, begin.Column)
+	dst.CustomDecls = append(dst.CustomDecls, lineDirective+string(src))
 }
 
 func (conv *converter) isMatcherFunc(f *ast.FuncDecl) bool {
